@@ -362,13 +362,20 @@ def run_item(item, col, tier):
     B = BOUNDS[tier]
     if item["kind"] == "vi":
         for seed in item["seeds"]:
-            for n in range(B["vi_n"][0], B["vi_n"][1] + 1):
+            # the small range completely, plus counts around powers of two and typical chunk sizes (a 'bounded memory'
+            # loop that asks in pieces only shows for large n)
+            for n in list(range(B["vi_n"][0], B["vi_n"][1] + 1)) + [63, 64, 65, 100, 127, 128, 129, 255, 256, 257, 511, 512, 513, 1000, 1023, 1024, 1025, 4097]:
                 run_vi({"seed": seed, "n": n, "n_chains": None, "index": None, "b": None, "t": None}, col)
                 run_vi({"seed": seed, "n": n, "n_chains": 3, "index": 1, "b": 2, "t": 2}, col)
         return
     seed = item["seed"]
     grid = list(itertools.product(range(B["burn_in"][0], B["burn_in"][1] + 1), range(B["thin"][0], B["thin"][1] + 1),
                                   range(B["n"][0], B["n"][1] + 1)))
+    # schedules far outside the small grid (the CLI defaults 1000/10/100, counts around 256, large thinning):
+    # a special-cased fast path only shows there
+    if item.get("large", True):
+        for (b, t, n) in [(1000, 10, 100), (0, 1, 300), (7, 3, 257), (256, 256, 2), (255, 1, 513), (3, 100, 3)]:
+            run_mcmc_stub({"model": "stub", "seed": seed, "n_chains": 2, "index": 1, "b": b, "t": t, "n": n}, col)
     sampled = False
     for c in range(B["n_chains"][0], B["n_chains"][1] + 1):
         per_index = {}
